@@ -24,9 +24,12 @@ Definition v3close (tol : float) (a b : vec3 float) : bool :=
 (* closeness of a vector relative to the scale of the whole vector *)
 Definition fmaxabs (l : list float) : float :=
   fold_left (fun m x => if PrimFloat.ltb m (PrimFloat.abs x) then PrimFloat.abs x else m) l 0%float.
+Definition is_nan (x : float) : bool := negb (PrimFloat.eqb x x).
+(* NaN agrees with NaN (model and implementation degenerate in the same place); the property oracles,
+   not the correspondence, decide whether a NaN is acceptable *)
 Definition flist_close_scaled (tol : float) (a b : list float) : bool :=
   let s := PrimFloat.add 1 (fmaxabs b) in
-  list_eqb (fun x y => PrimFloat.leb (PrimFloat.abs (PrimFloat.sub x y)) (PrimFloat.mul tol s)) a b.
+  list_eqb (fun x y => PrimFloat.leb (PrimFloat.abs (PrimFloat.sub x y)) (PrimFloat.mul tol s) || (is_nan x && is_nan y)) a b.
 Definition v3list_close (tol : float) (a b : list (vec3 float)) : bool := list_eqb (v3close tol) a b.
 Definition flat3 (l : list (vec3 float)) : list float :=
   flat_map (fun p => [vx p; vy p; vz p]) l.
